@@ -155,6 +155,10 @@ func runC03(c *Ctx) {
 		if bc.F.From > start {
 			start = bc.F.From
 		}
+		if bc.F.To != 0 && start > bc.F.To {
+			c.Tag("inverted-window")
+			continue // empty window: the report shows nothing, the property makes no claim
+		}
 		shown := map[string][]string{}
 		for _, r := range rows {
 			if strings.HasPrefix(r.Path, "Assets") || strings.HasPrefix(r.Path, "Liabilities") {
